@@ -12,6 +12,7 @@ from gens import docs, sweep, harness, rt
 MANIFEST = dict(
     technique="Coq lemmas (idempotence of the printer's normalisations, determinism) + kernel-checked format-twice evaluation on the slot product through the composed models + extracted-model correspondence",
     text=("Coq (Props/C04.v): [universal] the printer is a function of dictionary and options; escape_quotes is idempotent for every string (proved from unescape . escape = id); upper-casing is idempotent (generated case table); "
+          "[universal, Proofs/PrintU_Twice.v] printing the dictionary a print call leaves behind gives the same text and leaves it unchanged; "
           "[finite] for every root-level document of the slot product, formatting the formatted text again is byte-identical and re-loading is exact - evaluated by the kernel through parser and printer models. "
           "PARTIAL: the universal idempotence over all dictionaries depends on C01's acceptance hypothesis and is explored by the hunter: format-twice on corpus files and generated documents under random option sets, "
           "and the same dictionary printed in separate processes under three PYTHONHASHSEED values."),
